@@ -73,6 +73,8 @@ def items(tier, seed):
              ['I', '-1'], ['I', '-I'], ['sqrt(2)', '2'], ['1+sqrt(2)', '1-sqrt(2)'], ['(1+sqrt(5))/2', '(1-sqrt(5))/2'], ['-1/2+sqrt(3)*I/2', '-1'],
              ['sqrt(2)', '2', '4'], ['I', 'sqrt(2)/2+sqrt(2)*I/2'], ['2', 'sqrt(2)', '1/2'], ['1+sqrt(2)', '1-sqrt(2)', '-1'],
              # rank >= 2 with multiplicities of which the smallest does not divide the others (a non-unimodular elimination loses generators)
+             # more distinct primes than bases, leading constraint rows dependent (every equation must be eliminated, not only the first k)
+             ['6', '180'], ['6', '180', '5'], ['12', '150'], ['10', '40', '7'], ['-6', '180'],
              ['4', '8', '32'], ['32', '4', '8'], ['9', '27', '243'], ['-4', '8', '32'], ['4', '8', '32', '1/2'], ['8', '32', '128', '3']]
     lists += fixed
     nr = 40 if tier == 'quick' else 400
